@@ -1,7 +1,7 @@
 (* C11 — conditional compilation selects exactly the branches C semantics select.
    Property theorems only. *)
 From Coq Require Import List NArith Bool String Lia.
-From RV Require Import Cond CondProofs GenCond.
+From RV Require Import Cond CondProofs CondParserProofs GenCond.
 Import ListNotations.
 
 (* ---- table obligations (regenerated from the source on every run) ---- *)
@@ -35,6 +35,17 @@ Theorem C11_reject_unbalanced :
     result_err (run_file switch (evalc evalb) e0 ls) = scan 0 ls.
 Proof. exact (reject_unbalanced switch). Qed.
 
+(* ---- every condition tree (any depth) over || && == != < <= > >= ! ( ) literals and identifiers:
+        parsing its minimally parenthesised token text yields the reference unsigned-64 value ---- *)
+Theorem C11_cond_parser_correct : forall e : cexpr,
+  cond_parse (raw e) = Some (negb (N.eqb (ceval e) 0)).
+Proof. exact cond_parse_correct. Qed.
+
+Example C11_cond_example :
+  raw (EBin BAnd (EBin BOr (ENum 1) (ENum 0)) (ENot (EBin BLt (ENum 2) (EBin BLt (ENum 1) (ENum 3))))) =
+  [KLP; KNum 1; KOr; KNum 0; KRP; KAnd; KNot; KLP; KNum 2; KLt; KLP; KNum 1; KLt; KNum 3; KRP; KRP]%N.
+Proof. vm_compute. reflexivity. Qed.
+
 (* ---- non-vacuity ---- *)
 Definition ex_tree : items :=
   ICons (ISimple (LDefine "A" (Some 2%N)))
@@ -59,3 +70,4 @@ Print Assumptions C11_apply_table.
 Print Assumptions C11_level_table.
 Print Assumptions C11_selects_C_groups.
 Print Assumptions C11_reject_unbalanced.
+Print Assumptions C11_cond_parser_correct.
